@@ -755,10 +755,18 @@ mod pattern_impl {
     pub struct RegexSearcher<'r, 't> {
         haystack: &'t str,
         regex: &'r Regex,
+        // Everything before this offset has been reported by next().
         current_pos: usize,
+        // Where the next forward search starts. This is past current_pos after an empty match.
+        search_pos: usize,
         done: bool,
         // For reverse searching
+        // Everything at or after this offset has been reported by next_back().
         reverse_pos: usize,
+        // The matches of the haystack (computed on first use), and how many of them
+        // next_back() has yet to report.
+        reverse_matches: Option<Vec<Range>>,
+        reverse_remaining: usize,
         reverse_done: bool,
     }
 
@@ -768,23 +776,13 @@ mod pattern_impl {
                 haystack,
                 regex,
                 current_pos: 0,
+                search_pos: 0,
                 done: false,
                 reverse_pos: haystack.len(),
+                reverse_matches: None,
+                reverse_remaining: 0,
                 reverse_done: false,
             }
-        }
-
-        fn find_last_match_before(&self, pos: usize) -> Option<super::Match> {
-            // Find all matches up to the given position and return the last one
-            let mut last_match = None;
-            for m in self.regex.find_from(self.haystack, 0) {
-                if m.end() <= pos {
-                    last_match = Some(m);
-                } else {
-                    break;
-                }
-            }
-            last_match
         }
     }
 
@@ -798,8 +796,8 @@ mod pattern_impl {
                 return SearchStep::Done;
             }
 
-            // Try to find the next match starting from current position
-            if let Some(m) = self.regex.find_from(self.haystack, self.current_pos).next() {
+            // Try to find the next match. Note a start past the end finds nothing.
+            if let Some(m) = self.regex.find_from(self.haystack, self.search_pos).next() {
                 let match_start = m.start();
                 let match_end = m.end();
 
@@ -813,37 +811,30 @@ mod pattern_impl {
 
                 // Return the match
                 self.current_pos = match_end;
+                self.search_pos = match_end;
 
-                // Handle zero-width matches to avoid infinite loops
+                // After a zero-width match, resume searching one character later to avoid
+                // an infinite loop. The skipped character is not reported here: it is
+                // covered by the next step, so that steps stay adjacent.
                 if match_start == match_end {
-                    // For zero-width matches, we need to advance at least one byte
-                    // to avoid infinite loops
-                    if match_end < self.haystack.len() {
-                        // Find the next character boundary
-                        let mut next_pos = match_end + 1;
-                        while next_pos < self.haystack.len()
-                            && !self.haystack.is_char_boundary(next_pos)
-                        {
-                            next_pos += 1;
-                        }
-                        self.current_pos = next_pos;
-                    } else {
-                        // We're at the end of the string
-                        self.done = true;
+                    let mut next_pos = match_end + 1;
+                    while next_pos < self.haystack.len() && !self.haystack.is_char_boundary(next_pos)
+                    {
+                        next_pos += 1;
                     }
+                    self.search_pos = next_pos;
                 }
 
                 SearchStep::Match(match_start, match_end)
             } else {
                 // No more matches, reject remaining text if any
+                self.done = true;
                 if self.current_pos < self.haystack.len() {
                     let reject_start = self.current_pos;
                     let reject_end = self.haystack.len();
                     self.current_pos = self.haystack.len();
-                    self.done = true;
                     SearchStep::Reject(reject_start, reject_end)
                 } else {
-                    self.done = true;
                     SearchStep::Done
                 }
             }
@@ -856,48 +847,42 @@ mod pattern_impl {
                 return SearchStep::Done;
             }
 
-            // Try to find the last match before current reverse position
-            if let Some(m) = self.find_last_match_before(self.reverse_pos) {
-                let match_start = m.start();
-                let match_end = m.end();
+            // The matches are those of a forward scan; report them last to first.
+            if self.reverse_matches.is_none() {
+                let matches: Vec<Range> = self
+                    .regex
+                    .find_iter(self.haystack)
+                    .map(|m| m.range())
+                    .collect();
+                self.reverse_remaining = matches.len();
+                self.reverse_matches = Some(matches);
+            }
+            let last_match = match (&self.reverse_matches, self.reverse_remaining) {
+                (Some(matches), n) if n > 0 => Some(matches[n - 1].clone()),
+                _ => None,
+            };
 
+            if let Some(m) = last_match {
                 // Handle any gap between match end and current reverse position
-                if match_end < self.reverse_pos {
-                    let reject_start = match_end;
+                if m.end < self.reverse_pos {
+                    let reject_start = m.end;
                     let reject_end = self.reverse_pos;
-                    self.reverse_pos = match_end;
+                    self.reverse_pos = m.end;
                     return SearchStep::Reject(reject_start, reject_end);
                 }
 
                 // Return the match
-                self.reverse_pos = match_start;
-
-                // Handle zero-width matches
-                if match_start == match_end {
-                    // For zero-width matches, move back by one character
-                    if match_start > 0 {
-                        let mut prev_pos = match_start - 1;
-                        while prev_pos > 0 && !self.haystack.is_char_boundary(prev_pos) {
-                            prev_pos -= 1;
-                        }
-                        self.reverse_pos = prev_pos;
-                    } else {
-                        // We're at the beginning of the string
-                        self.reverse_done = true;
-                    }
-                }
-
-                SearchStep::Match(match_start, match_end)
+                self.reverse_remaining -= 1;
+                self.reverse_pos = m.start;
+                SearchStep::Match(m.start, m.end)
             } else {
                 // No more matches, reject remaining text if any
+                self.reverse_done = true;
                 if self.reverse_pos > 0 {
-                    let reject_start = 0;
                     let reject_end = self.reverse_pos;
                     self.reverse_pos = 0;
-                    self.reverse_done = true;
-                    SearchStep::Reject(reject_start, reject_end)
+                    SearchStep::Reject(0, reject_end)
                 } else {
-                    self.reverse_done = true;
                     SearchStep::Done
                 }
             }
